@@ -13,6 +13,7 @@ The former witnesses are kept below as `example`s that now satisfy the property,
 corpus/C04/witnesses.txt for the correspondence check.
 -/
 import ArvVerif.Proofs.C04_Trash
+import ArvVerif.Proofs.C04_HistGood
 import ArvVerif.Proofs.C04_Race
 namespace ArvVerif.C04
 
@@ -45,6 +46,50 @@ theorem C04_acknowledged_block_is_readable (c : Cfg) (s : St) (ops : List Op) (h
   have hg := (allGood_runG (c := c) ops s emptyGhost hgood v hv).1 h f hf
   simp only [step]
   rw [getStatus_200 _ _ ⟨v, hv, f, hf, hg⟩]
+
+/-! ### content of an acknowledged PUT
+
+Beyond the property text (which speaks of trash-list entries, DELETE requests and sweeps REMOVING the
+block): is a block whose PUT was acknowledged also still READABLE? Not unconditionally — `untrash`
+renames the trashed copy over whatever is at the block path, and a trashed copy that was corrupt on
+disk then replaces the intact fresh one (GET 500). No garbage-collection request is involved and the
+bad bytes pre-exist, so this is not a violation of C04 as stated; the exact boundary is: -/
+
+/-- Full: GET answers 200 before t + TTL for every hash whose PUT was acknowledged at t. -/
+def C04_put_readable_Full : Prop :=
+  ∀ (c : Cfg) (s : St) (ops : List Op) (h : Hash) (t : Time),
+    (runGP c s emptyGhost ops).2 h = some t → (runGP c s emptyGhost ops).1.now < t + c.ttl →
+    (step c (runGP c s emptyGhost ops).1 (.get h)).2 = .code 200
+
+/-- witness: a corrupt copy of h0 sits in the trash; PUT h0 (acknowledged, intact copy written);
+untrash h0 renames the corrupt copy over it; GET h0 → 500 -/
+def cVol : Vol := { id := 0, ro := false, blocks := fun _ => none,
+                    trash := [{ hash := 0, deadline := 500, file := { good := false, mtime := 0 } }] }
+def cSt : St := { vols := [cVol], now := 100, rr := 0 }
+def cOps : List Op := [.put 0 true, .untrash 0]
+
+theorem C04_put_readable_full_fails : ¬ C04_put_readable_Full := by
+  intro hF
+  have := hF { ttl := 10, life := 4, blobTrash := true, conc := 1, res := 1 } cSt cOps 0 100 (by decide) (by decide)
+  revert this
+  decide
+
+/-- What holds, with no assumption about the other copies on the server: over every history in which
+each `untrash` restores an intact file (`CleanUntrash`), a hash whose PUT was acknowledged at t is
+answered 200 by GET at every moment before t + TTL. -/
+theorem C04_put_readable_partial (c : Cfg) (s : St) (ops : List Op) (hclean : CleanUntrash c s ops)
+    (h : Hash) (t : Time) (hack : (runGP c s emptyGhost ops).2 h = some t)
+    (hlt : (runGP c s emptyGhost ops).1.now < t + c.ttl) :
+    (step c (runGP c s emptyGhost ops).1 (.get h)).2 = .code 200 := by
+  have hp := protG_run (c := c) ops s emptyGhost (fun _ _ hg => by cases hg) hclean
+  obtain ⟨v, hv, f, hf, _, hg⟩ := (hp h t hack).2 hlt
+  simp only [step]
+  rw [getStatus_200 _ _ ⟨v, hv, f, hf, hg⟩]
+
+example : CleanUntrash { ttl := 10, life := 4, blobTrash := true, conc := 1, res := 1 } cSt [.put 0 true, .delete 0, .get 0] := by
+  simp [CleanUntrash, CleanOp]
+example : (runGP { ttl := 10, life := 4, blobTrash := true, conc := 1, res := 1 } cSt emptyGhost [.put 0 true, .delete 0, .get 0]).2 0 = some 100 := by
+  decide
 
 /-! non-vacuity, on the former F04a witness: one writable volume holding h0 with an old timestamp; TTL
 10; time 100: DELETE h0 (trashed) · PUT h0 (acknowledged at 100) · untrash h0 (old copy renamed over the
